@@ -14,8 +14,9 @@ REACTION (acid, base, salts, CO2; 1–3 steps, sometimes INCREMENTAL_REACTIONS) 
 """
 import math
 
-DBS = ["phreeqc.dat", "wateq4f.dat", "minteq.v4.dat", "llnl.dat"]
-DBW = [0.45, 0.2, 0.15, 0.2]
+# every database family: Debye–Hückel/Davies (phreeqc, wateq4f, minteq.v4), LLNL, Pitzer (model_pz), SIT (model_sit)
+DBS = ["phreeqc.dat", "wateq4f.dat", "minteq.v4.dat", "llnl.dat", "pitzer.dat", "sit.dat"]
+DBW = [0.34, 0.14, 0.12, 0.15, 0.14, 0.11]
 
 # solution components: keyword, element symbol(s) it brings, (lo, hi) mol/kgw
 COMPS = [
@@ -113,8 +114,11 @@ def gen_case(rng, i, dbinfos):
     info = dbinfos[db]
     ncomp = rng.randint(2, 7)
     comps = []
+    known = info.get("elements")
+    avail = [(c, w) for c, w in zip(COMPS, CW) if known is None or (c[0] in known and all(e in known for e in c[1]))]
+    ncomp = min(ncomp, len(avail))
     while len(comps) < ncomp:
-        c = rng.choices(COMPS, CW)[0]
+        c = rng.choices([a[0] for a in avail], [a[1] for a in avail])[0]
         if all(c[0] != d["kw"] for d in comps):
             comps.append({"kw": c[0], "conc": float(fmt(loguni(rng, *c[2])))})
     want_ss = rng.random() < 0.4
@@ -122,8 +126,10 @@ def gen_case(rng, i, dbinfos):
         add = rng.choice([["Ca", "C(4)", "Sr"], ["Ca", "C(4)", "Mn(2)", "Mg"], ["Ba", "Sr", "S(6)"], ["Ca", "C(4)", "Ba", "Sr"],
                           ["Ca", "C(4)", "Fe(2)", "Mn(2)"], ["Ca", "S(6)"], ["Ca", "C(4)", "Zn", "Cd"]])
         for kw in add:
+            c = next(c for c in COMPS if c[0] == kw)
+            if known is not None and not (c[0] in known and all(e in known for e in c[1])):
+                continue
             if all(kw != d["kw"] for d in comps):
-                c = next(c for c in COMPS if c[0] == kw)
                 comps.append({"kw": kw, "conc": float(fmt(loguni(rng, *c[2])))})
     elems = sorted({e for d in comps for c in COMPS if c[0] == d["kw"] for e in c[1]})
     temp = round(rng.choice([25.0, 25.0, rng.uniform(0, 100), rng.uniform(0, 100), rng.uniform(5, 40)]), 2)
@@ -154,8 +160,8 @@ def gen_case(rng, i, dbinfos):
             continue
         phases.append(gen_phase(rng, info, nm, pool))
     # a gas held at a fixed partial pressure (only SI = target is judged here; the fugacity-adjusted target is the engine's, C19)
-    if rng.random() < 0.12 and "CO2(g)" in info["phases"] and len(phases) < 6:
-        if all(d["kw"] != "C(4)" for d in comps):
+    if rng.random() < 0.12 and "CO2(g)" in info["phases"] and len(phases) < 6 and (known is None or "C(4)" in known):
+        if all(d["kw"] != "C(4)" for d in comps) and (known is None or "C(4)" in known):
             comps.append({"kw": "C(4)", "conc": float(fmt(loguni(rng, 1e-5, 0.02)))})
         phases.append({"name": "CO2(g)", "si": round(rng.uniform(-4, -0.5), 3), "moles": rng.choice([10.0, 10.0, 0.0, float(fmt(loguni(rng, 1e-4, 1)))]),
                        "gas": True})
@@ -242,9 +248,20 @@ def gen_case(rng, i, dbinfos):
                         ss["p"] = [round(rng.uniform(-1, 3), 3), round(rng.uniform(-1.5, 1.5), 3)]
                     else:
                         ss["p"] = [round(rng.uniform(0.7, 6), 3), round(rng.uniform(0.7, 6), 3), round(rng.uniform(0.05, 0.45), 3), round(rng.uniform(0.55, 0.95), 3)]
-                    if rng.random() < 0.4:
+                    r = rng.random()
+                    if r < 0.25:
                         ss["tempk"] = round(273.15 + rng.uniform(0, 100), 2)
+                    elif r < 0.45:
+                        ss["tempc"] = round(rng.uniform(0, 100), 2)
+                    elif r < 0.55:
+                        ss["temp"] = round(rng.uniform(0, 100), 2)
                 spec["ss"] = ss
+                # rarely: a second (ideal) solid solution of the same assemblage that shares a component phase with the first
+                others = [m for fam_ in SS_FAMILIES for m in fam_ if m in pool and m not in used and all(m != c["name"] for c in ss["comps"])]
+                if others and rng.random() < 0.07:
+                    spec["ss2"] = {"name": "SSb", "ideal": True,
+                                   "comps": [{"name": ss["comps"][0]["name"], "moles": float(fmt(loguni(rng, 1e-5, 0.05)))},
+                                             {"name": rng.choice(sorted(set(others))), "moles": float(fmt(loguni(rng, 1e-5, 0.05)))}]}
     if not phases and "exchange" not in spec and "surface" not in spec and "ss" not in spec:
         spec["phases"] = [gen_phase(rng, info, rng.choice(common or pool or ["Calcite"]), pool)]
     # later stages
@@ -277,6 +294,41 @@ def gen_case(rng, i, dbinfos):
             if rng.random() < 0.65:
                 cur = redefine(rng, cur)
                 st["redef"] = cur
+    # solid-solution histories: redefinition ideal <-> non-ideal with the same phases, SOLID_SOLUTIONS_MODIFY that makes a
+    # non-ideal solid solution ideal (a0 = a1 = 0), temperature excursions that return to the starting temperature
+    if "ss" in spec and len(spec["ss"]["comps"]) == 2 and "ss2" not in spec:
+        if not stages and rng.random() < 0.6:
+            stages.append({})
+        if stages and len(stages) < 3 and rng.random() < 0.5:
+            stages.append({})
+        cur_ideal = spec["ss"]["ideal"]
+        hot = False
+        for st in stages:
+            r = rng.random()
+            if r < 0.3:
+                import copy
+                new = copy.deepcopy(spec["ss"])
+                for k in ("parm", "p", "tempk", "tempc", "temp"):
+                    new.pop(k, None)
+                new["ideal"] = not cur_ideal
+                for c in new["comps"]:
+                    c["moles"] = 0.0 if rng.random() < 0.3 else float(fmt(loguni(rng, 1e-6, 0.1)))
+                if not new["ideal"]:
+                    new["parm"] = rng.choice(["Gugg_nondim", "Gugg_kJ", "Thompson", "Margules"])
+                    new["p"] = [round(rng.uniform(-1, 3), 3), round(rng.uniform(-1, 1), 3)]
+                    if rng.random() < 0.5:
+                        new[rng.choice(["tempk", "tempc", "temp"])] = round(rng.uniform(0, 100), 2) + (273.15 if False else 0)
+                        if "tempk" in new:
+                            new["tempk"] = round(new["tempk"] + 273.15, 2)
+                st["ss_redef"] = new
+                cur_ideal = new["ideal"]
+            elif r < 0.45 and not cur_ideal:
+                st["ss_modify_ideal"] = True
+                cur_ideal = True
+            if "temp" not in st and rng.random() < 0.5:
+                st["temp"] = spec["temp"] if hot and rng.random() < 0.7 else round(rng.uniform(0, 100), 2)
+            if "temp" in st:
+                hot = st["temp"] != spec["temp"]
     spec["stages"] = stages
     if rng.random() < 0.12:
         spec["high_precision"] = True
@@ -301,6 +353,27 @@ def phase_lines(spec):
     return out
 
 
+def ss_parm_lines(ss):
+    L = []
+    for k in ("tempk", "tempc", "temp"):
+        if k in ss:
+            L.append(f"  -{k} {fmt(ss[k])}")
+    L.append(f"  -{ss['parm']} " + " ".join(fmt(x) for x in ss["p"]))
+    return L
+
+
+def ss_block(ss):
+    L = ["SOLID_SOLUTIONS 1", f" {ss['name']}"]
+    if ss["ideal"]:
+        for c in ss["comps"]:
+            L.append(f"  -comp {c['name']} {fmt(c['moles'])}")
+    else:
+        L.append(f"  -comp1 {ss['comps'][0]['name']} {fmt(ss['comps'][0]['moles'])}")
+        L.append(f"  -comp2 {ss['comps'][1]['name']} {fmt(ss['comps'][1]['moles'])}")
+        L += ss_parm_lines(ss)
+    return L
+
+
 def punch_items(spec):
     """(heading, BASIC expression) pairs; headings are parsed by the oracle"""
     it = []
@@ -308,7 +381,7 @@ def punch_items(spec):
         it.append((f"equi:{p['name']}", f'EQUI("{p["name"]}")'))
         it.append((f"si:{p['name']}", f'SI("{p["name"]}")'))
     if "ss" in spec:
-        for c in spec["ss"]["comps"]:
+        for c in spec["ss"]["comps"] + [c for c in spec.get("ss2", {}).get("comps", []) if all(c["name"] != d["name"] for d in spec["ss"]["comps"])]:
             it.append((f"ss:{c['name']}", f'S_S("{c["name"]}")'))
             it.append((f"si:{c['name']}", f'SI("{c["name"]}")'))
         # total of every element held by the solid solution is not needed; SUM_S_S of one element as a cross-check
@@ -360,18 +433,9 @@ def render(spec):
         if su["no_edl"]:
             L.append(" -no_edl")
     if "ss" in spec:
-        ss = spec["ss"]
-        L.append("SOLID_SOLUTIONS 1")
-        L.append(f" {ss['name']}")
-        if ss["ideal"]:
-            for c in ss["comps"]:
-                L.append(f"  -comp {c['name']} {fmt(c['moles'])}")
-        else:
-            L.append(f"  -comp1 {ss['comps'][0]['name']} {fmt(ss['comps'][0]['moles'])}")
-            L.append(f"  -comp2 {ss['comps'][1]['name']} {fmt(ss['comps'][1]['moles'])}")
-            if "tempk" in ss:
-                L.append(f"  -tempk {fmt(ss['tempk'])}")
-            L.append(f"  -{ss['parm']} " + " ".join(fmt(x) for x in ss["p"]))
+        L += ss_block(spec["ss"])
+        if "ss2" in spec:
+            L += ss_block(spec["ss2"])[1:]
     items = punch_items(spec)
     L += ["SELECTED_OUTPUT 1", " -reset false", " -simulation true", " -state true", " -step true"]
     if spec.get("high_precision"):
@@ -402,14 +466,20 @@ def render(spec):
     for st in spec["stages"]:
         if st.get("newrun"):
             L.append("#RUNSPLIT")      # the harness starts a new RunString call here (same instance)
+        if st.get("ss_modify_ideal"):
+            L += ["SOLID_SOLUTIONS_MODIFY 1", f" -solid_solution {spec['ss']['name']}", "  -a0 0", "  -a1 0", "  -ag0 0", "  -ag1 0", "END"]
         L.append("USE solution 1")
         for s in saves:
             if s == "equilibrium_phases" and "redef" in st:
+                continue
+            if s == "solid_solutions" and "ss_redef" in st:
                 continue
             L.append(f"USE {s} 1")
         if "redef" in st:
             L.append("EQUILIBRIUM_PHASES 1")
             L += phase_lines({"phases": st["redef"]})
+        if "ss_redef" in st:
+            L += ss_block(st["ss_redef"])
         if "reaction" in st:
             L.append("REACTION 1")
             L.append(f" {st['reaction']['formula']} 1")
@@ -443,12 +513,17 @@ def shrink_candidates(spec):
                 mod(lambda s, k=k: s["stages"][k].pop("newrun"))
             if "redef" in st:
                 mod(lambda s, k=k: s["stages"][k].pop("redef"))
+            for fld in ("ss_redef", "ss_modify_ideal"):
+                if fld in st:
+                    mod(lambda s, k=k, fld=fld: s["stages"][k].pop(fld))
         for k, st in enumerate(spec["stages"]):
             if "temp" in st and "reaction" in st:
                 mod(lambda s, k=k: s["stages"][k].pop("temp"))
             if "reaction" in st and len(st["reaction"]["amounts"]) > 1:
                 mod(lambda s, k=k: s["stages"][k]["reaction"].update(amounts=s["stages"][k]["reaction"]["amounts"][-1:]))
-    for key in ("ss", "surface", "exchange", "knobs", "high_precision"):
+    if "ss2" in spec:
+        mod(lambda s: s.pop("ss2"))
+    for key in (("surface", "exchange", "knobs", "high_precision") if "ss2" in spec else ("ss", "surface", "exchange", "knobs", "high_precision")):
         if key in spec:
             mod(lambda s, key=key: s.pop(key))
     for k in range(len(spec["phases"])):
